@@ -20,6 +20,7 @@ const (
 	hexValNum       = 10
 	metaSeqLength   = 6
 	setDirectiveLen = 4
+	maxIncludeDepth = 10
 )
 
 // Parser is a inputrc parser.
@@ -32,6 +33,7 @@ type Parser struct {
 	mode      string
 	keymap    string
 	line      int
+	depth     int
 	conds     []bool
 	errs      []error
 }
@@ -367,7 +369,17 @@ func (p *Parser) do(handler Handler, keyword, val string) error {
 			return err
 		}
 
-		return Parse(bytes.NewReader(buf), handler, WithName(val), WithApp(p.app), WithTerm(p.term), WithMode(p.mode))
+		// Files including themselves or each other would otherwise recurse forever.
+		if p.depth >= maxIncludeDepth {
+			return &ParseError{
+				Name: p.name,
+				Line: p.line,
+				Text: keyword + " " + val,
+				Err:  ErrIncludeDepth,
+			}
+		}
+
+		return Parse(bytes.NewReader(buf), handler, WithName(val), WithApp(p.app), WithTerm(p.term), WithMode(p.mode), withDepth(p.depth+1))
 	}
 
 	if !p.conds[len(p.conds)-1] {
@@ -421,6 +433,13 @@ func WithApp(app string) Option {
 func WithTerm(term string) Option {
 	return func(p *Parser) {
 		p.term = term
+	}
+}
+
+// withDepth is a parser option to set the $include nesting depth.
+func withDepth(depth int) Option {
+	return func(p *Parser) {
+		p.depth = depth
 	}
 }
 
